@@ -283,7 +283,7 @@ impl Prop for C19 {
                 } else {
                     vec![]
                 };
-                let wall_jump_ms = if r.chance(1, 40) { *r.pick(&[-5000i64, -30, 30, 5000, 700_000, -700_000]) } else { 0 };
+                let wall_jump_ms = if r.chance(1, 40) { *r.pick(&[-5000i64, -30, 30, 5000, 700_000, -700_000, 1 << 32, (1 << 32) + 1000, 2 << 32, -(1 << 32), 86_400_000]) } else { 0 };
                 conn.push(Pkt { gap_ns: gap_ms * 1_000_000 + r.below(1_000_000), wall_jump_ms, seg, tsval: if has_ts { Some(val) } else { None } });
             }
             if ci == 0 {
